@@ -34,13 +34,53 @@ class Graph:
 SCALARS = ["int", "char", "unsigned long", "short", "long long", "bool"]
 
 
+def generate_chain(rng):
+    """Chain of templates, each holding an instantiation of the previous one with its own parameter (by value or by pointer);
+    whether the top's parameter is used depends on a fact that has to travel the whole chain."""
+    g = Graph("cxx")
+    depth = rng.randint(2, 4)
+    base_use = rng.choice(["value", "pointer", "unused", "array"])
+    prev = None
+    for i in range(depth):
+        node = Node("L%d" % i, "template")
+        node.tparams = ["A"]
+        if prev is None:
+            node.members.append({"value": "A v;", "pointer": "A *p;", "unused": "int nothing;", "array": "A arr[3];"}[base_use])
+        else:
+            if rng.random() < 0.6:
+                node.members.append("%s<A> *link;" % prev.name)
+                node.mentions.add(prev.name)
+            else:
+                node.members.append("%s<A> link;" % prev.name)
+                node.needs_complete.add(prev.name)
+            if rng.random() < 0.3:
+                node.members.append("int extra%d;" % i)
+        g.nodes.append(node)
+        prev = node
+    user = Node("C0", "class")
+    arg = rng.choice(["int", "float", "char", "double"])
+    user.members.append("%s<%s> top;" % (prev.name, arg))
+    user.needs_complete.add(prev.name)
+    for x in g.nodes:
+        if x is not prev and rng.random() < 0.3:
+            user.members.append("%s<long> *side_%s;" % (x.name, x.name))
+            user.mentions.add(x.name)
+    g.nodes.append(user)
+    if rng.random() < 0.5:
+        td = Node("A0", "typedef")
+        td.target = "%s<short>" % prev.name
+        td.needs_complete.add(prev.name)
+        g.nodes.append(td)
+    return g
+
+
 def generate(rng, n=None, lang="cxx"):
     g = Graph(lang)
     n = n or rng.randint(3, 7)
     tpls = []
     for i in range(n):
         k = rng.random()
-        if lang == "cxx" and k < 0.22:
+        if lang == "cxx" and k < 0.3:
             node = Node("T%d" % i, "template")
             node.tparams = ["A"] if rng.random() < 0.6 else ["A", "B"]
             use = rng.choice(["value", "pointer", "unused", "array", "partial"])
@@ -57,6 +97,16 @@ def generate(rng, n=None, lang="cxx"):
                 node.members.append("int unused_param_holder;")
             if rng.random() < 0.3:
                 node.members.append("float tf;")
+            if tpls and rng.random() < 0.6:
+                # a template whose member is an instantiation of an earlier template with its own parameter (chains of used-parameter facts)
+                inner = rng.choice(tpls)
+                args = ", ".join(["A"] + ["int"] * (len(inner.tparams) - 1))
+                if rng.random() < 0.5:
+                    node.members.append("%s<%s> chain_v;" % (inner.name, args))
+                    node.needs_complete.add(inner.name)
+                else:
+                    node.members.append("%s<%s> *chain_p;" % (inner.name, args))
+                    node.mentions.add(inner.name)
             tpls.append(node)
             g.nodes.append(node)
             continue
